@@ -43,7 +43,7 @@
 From DV Require Import Model.Base Model.NameCheck Model.Parser Model.Header Model.Readers Model.Uncompress
   Model.Mutate Spec.NameSpec Spec.PacketSpec Spec.RecordSpec Proofs.Hoare Proofs.HeaderBits Proofs.InsertLemmas
   Spec.PlainSpec Proofs.WalkValues Proofs.SetTtl Proofs.WalkSkip Proofs.PlainWf Proofs.InsertSpec Proofs.SetTtlInv Proofs.DeleteInv Proofs.SetNameInv Proofs.ReplaceInv Proofs.WalkInv Proofs.DecompressFirst Proofs.NameCheckTotal
-  Model.Renamer Proofs.RenameSpec Proofs.CompressContent Proofs.RenameContent.
+  Model.Renamer Proofs.RenameSpec Proofs.CompressContent Proofs.RenameContent Proofs.RenameAny.
 From Coq Require Import Lia.
 
 Theorem C09_insert_appends : forall sec rr v it s',
@@ -336,6 +336,20 @@ Theorem C09_rename_effect : forall p v it sl tl sfx s', bytes_ok p -> parse p = 
   exists qls qt lxa lxn lxr qls' L' lxa' lxn' lxr',
     reading p qls qt lxa lxn lxr /\ renamed sl tl sfx qls qls' /\ Forall2 (ren_rec sl tl sfx) (lxa ++ lxn ++ lxr) L' /\
     reading (pp_packet (fst s')) qls' qt lxa' lxn' lxr' /\ Forall2 ci_rec L' (lxa' ++ lxn' ++ lxr') /\
-    length lxa' = length lxa /\ length lxn' = length lxn /\ length lxr' = length lxr.
+    length lxa' = length lxa /\ length lxn' = length lxn /\ length lxr' = length lxr /\ firstn 12 (pp_packet (fst s')) = firstn 12 p.
 Proof. exact rename_effect. Qed.
 Print Assumptions C09_rename_effect.
+
+(** the same from any object satisfying the C08 invariant (the rename reads only the bytes and the section offsets of the
+    object, which are those of the parse of its bytes); the object it leaves is exactly the parse of its new bytes *)
+Theorem C09_rename_on_decompressed : forall v it sl tl sfx s', dinv v ->
+  Forall lab sl -> Forall lab tl -> sl <> [] -> tl <> [] -> bytes_ok (wire_of_labels tl) ->
+  length (wire_of_labels sl) <= 255 -> length (wire_of_labels tl) <= 255 ->
+  m_rename (wire_of_labels tl) (wire_of_labels sl) sfx (v, it) = (s', Ok tt) ->
+  snd s' = it /\ bytes_ok (pp_packet (fst s')) /\ parse (pp_packet (fst s')) = Ok (fst s') /\
+  exists qls qt lxa lxn lxr qls' L' lxa' lxn' lxr',
+    reading (pp_packet v) qls qt lxa lxn lxr /\ renamed sl tl sfx qls qls' /\ Forall2 (ren_rec sl tl sfx) (lxa ++ lxn ++ lxr) L' /\
+    reading (pp_packet (fst s')) qls' qt lxa' lxn' lxr' /\ Forall2 ci_rec L' (lxa' ++ lxn' ++ lxr') /\
+    length lxa' = length lxa /\ length lxn' = length lxn /\ length lxr' = length lxr /\ firstn 12 (pp_packet (fst s')) = firstn 12 (pp_packet v).
+Proof. exact rename_effect_dinv. Qed.
+Print Assumptions C09_rename_on_decompressed.
